@@ -26,7 +26,7 @@ DENSITY_JOB = job("density",
     args=lambda tier, seed, k, profile: ["--seed", seed, "--segments", 8 if tier == Q else 12, "--events", (260 if tier == Q else 500) + 40 * (k % 4),
                                          "--bigk", 0 if tier == Q else 25,
                                          "--serde", 20 if profile == "serde" else 4, "--far", 12,
-                                         "--hdr", 70 if profile == "serde" else 2],
+                                         "--hdr", 70 if profile == "serde" else 2, "--restore", 1 if k == 0 else 0],
     nontrivial=density_nontrivial,
 )
 
